@@ -87,6 +87,15 @@ fn rsi_strategy(mk: fn(usize) -> Spec) -> impl Fn(Tier) -> BoxedStrategy<Case> +
     }
 }
 
+/// fz_single: view, N, stream; oracle = the exact definition clause
+pub fn fuzz_decode(u: &mut arbitrary::Unstructured) -> Option<(String, Case)> {
+    let vs = views();
+    let vd = &vs[u.int_in_range(0..=vs.len() - 1).ok()?];
+    let n = vd.min_n + u.int_in_range(0..=23usize).ok()?;
+    let xs = crate::fuzzdec::stream(u, vd.positive, 160);
+    Some((format!("C05/{}/definition/Q", vd.name), Case::of((vd.mk)(n), xs)))
+}
+
 pub fn clauses() -> Vec<Clause> {
     let mut v = vec![];
     let rule = "N in 1..40 (thorough ..200), dyadic grid, grammar stream of 0..4N+8 values optionally followed by a strictly rising / falling run of >= N+1 values or a spike followed by a flat stretch that lets it leave the window; output compared with the batch definition (G, L over the N most recent values, d = 0 for the first value; Rsi 100 when L = 0; MyRSI holds its previous output while G+L = 0, steps before any non-flat window exempt) at every step. Non-trivial: >= N+2 evictions and a non-constant stream.";
